@@ -57,6 +57,7 @@ fn main() {
 fn run(module: &str, command: &str, kv: &common::Args) -> i32 {
     match (module, command) {
         ("c01", "drive") => c01::drive(kv),
+        ("c01", "replay") => c01::replay(kv),
         ("c02", "drive") => c02::drive(kv),
         ("c02", "replay") => c02::replay(kv),
         ("c03", "drive") => c03::drive(kv),
